@@ -1,10 +1,42 @@
 import Vegeta.Go.Proto
-/-! Driver operations of property C13 (ops are named `c13.<name>`). -/
-namespace Vegeta.Driver.C13
-open Vegeta.Go Vegeta.Go.Proto
+import Vegeta.Model.RoundRobin
+/-! Driver operations of property C13 (ops are named `c13.<name>`).
 
-def handle (_op : String) (args : List String) : Option String :=
-  match _op with
+`c13.rr <n> {<len> <item>…}×n <calls>`: `n` decoder scripts (item ≥ 0: record with that id,
+item < 0: a failing call with error class `-item`), then the number of `Decode` calls made on
+the decoder returned by `NewRoundRobinDecoder`.  Answer: one token per call —
+`r<decoder>:<id>` (nil returned, record written), `e<class>` (error; class 0 = io.EOF),
+`nil` (nil returned, nothing written).
+
+`c13.drain <n> {<len> <item>…}×n <fuel>`: what report/encode do — call until the first error.
+Answer: `ok <count> <r…> end=<e<class>|nil|fuel>`.
+-/
+namespace Vegeta.Driver.C13
+open Vegeta.Go Vegeta.Go.Proto Vegeta.Model.RoundRobin
+
+def toItem (x : Int) : Item Nat := if x < 0 then .bad x.natAbs else .ok x.toNat
+
+def showStep : Step Nat → String
+  | .got i a => "r" ++ toString i ++ ":" ++ toString a
+  | .err e => "e" ++ toString e
+  | .nothing => "nil"
+
+def handle (op : String) (args : List String) : Option String :=
+  match op with
+  | "c13.rr" => do
+    let ((scripts, k), _) ← (do let s ← listOf (listOf int); let k ← nat; pure (s, k)).run args
+    let s := RR.init (scripts.map (·.map toItem))
+    let (sts, _) := calls k s
+    pure ("ok " ++ toString sts.length ++ sts.foldl (fun acc st => acc ++ " " ++ showStep st) "")
+  | "c13.drain" => do
+    let ((scripts, k), _) ← (do let s ← listOf (listOf int); let k ← nat; pure (s, k)).run args
+    let s := RR.init (scripts.map (·.map toItem))
+    let (out, _, e) := drain k s
+    let fin := match e with
+      | some c => "e" ++ toString c
+      | none => if out.length == k then "fuel" else "nil"
+    pure ("ok " ++ toString out.length ++
+      out.foldl (fun acc (i, a) => acc ++ " r" ++ toString i ++ ":" ++ toString a) "" ++ " end=" ++ fin)
   | _ => none
 
 end Vegeta.Driver.C13
